@@ -182,12 +182,37 @@ theorem history_read_at (before after : List HOp)
   obtain ⟨r, h1, h2⟩ := allOK_get before .read after [] rs hf
   cases r with
   | added b => simp [ResOK] at h2
+  | raised e' => simp [ResOK] at h2
   | pairs l => exact ⟨t, rs, l, e, h1, by simpa [ResOK] using h2⟩
 
 example : ∀ c, c ∈ addsOf [.add 3 4 5, .read, .add 255 0 17, .read, .read] → InRange c := by
   intro c hc
   simp only [addsOf, List.mem_cons, List.not_mem_nil, or_false] at hc
   rcases hc with rfl | rfl <;> simp [InRange]
+
+/-- **Faults, then continued use.** For EVERY history on one `RegionCoreTree()` object, without any
+hypothesis: an `add_core` of an in-range core returns `False`; any other `add_core` (negative or too
+large coordinates, core number > 17) raises `ValueError` and leaves the tree exactly as it was; the
+object stays usable: every read-out, before or after failed calls, selects exactly the in-range
+cores added before it, each once; the final tree is the tree built from the in-range adds alone. -/
+theorem history_faults_exact (ops : List HOp) :
+    ∃ t rs, runHistory 0 0 0 ops = .ok (t, rs) ∧ AllOKF (annotF [] ops) rs ∧
+      buildTree (goodAdds ops) = .ok t ∧ Inv 4 t ∧
+      ∀ x y p, holds 4 t x y p ↔ (x, y, p) ∈ (goodAdds ops).map toNat3 := by
+  obtain ⟨t, rs, e, ht, hh, hf, hb⟩ := hist_specF ops (RTree.new 0 0 0) [] [] rootOK_new
+    (by intro x y p; simp [holds_new])
+  refine ⟨t, rs, ?_, hf, hb, ht.1, by simpa using hh⟩
+  simpa [runHistory] using e
+
+theorem history_read_at_any (before after : List HOp) :
+    ∃ t rs l, runHistory 0 0 0 (before ++ .read :: after) = .ok (t, rs) ∧
+      rs[before.length]? = some (.pairs l) ∧ Exact ((goodAdds before).map toNat3) l := by
+  obtain ⟨t, rs, e, hf, _⟩ := history_faults_exact (before ++ .read :: after)
+  obtain ⟨r, h1, h2⟩ := allOKF_get before .read after [] rs hf
+  cases r with
+  | added b => simp [ResOKF] at h2
+  | raised e' => simp [ResOKF] at h2
+  | pairs l => exact ⟨t, rs, l, e, h1, by simpa [ResOKF] using h2⟩
 
 /-! ## `compress_flood_fill_regions` -/
 
